@@ -7,7 +7,7 @@ package types
 // Genesis validation is a filter in front of InitGenesis; what InitGenesis files does not depend on it (trusted: no
 // postcondition is assumed of it).
 //@ func ValidateGenesis(data)
-//@   property C14
+//@   property C14, C12
 //@   trusted
 //@   returns err
 //@ end
